@@ -251,6 +251,12 @@ func runHarness(prog *ssa.Program, hp *ssa.Package, fn *ssa.Function, thorough b
 		res.SolverS = in.sol.dur.Seconds()
 		res.MaxQueryMs = int(in.sol.maxQ.Milliseconds())
 		res.WallS = time.Since(t0).Seconds()
+		if in.sol.nrestart > 0 {
+			res.Outcomes = append(res.Outcomes, &Outcome{Kind: "inconclusive", ID: "solver-restart", Msg: fmt.Sprintf("solver process restarted %d times (no answer within the time limit)", in.sol.nrestart), Harness: fn.Name()})
+		}
+		if in.sol.durModel > time.Second {
+			res.Notes = append(res.Notes, fmt.Sprintf("%.1fs spent in model extraction", in.sol.durModel.Seconds()))
+		}
 		if in.sol.fbCalls > 0 {
 			res.Notes = append(res.Notes, fmt.Sprintf("%d queries decided by the non-incremental fallback solver", in.sol.fbCalls))
 		}
@@ -520,27 +526,57 @@ func checkMain(args []string) int {
 	spurious := 0
 	if !*noNative {
 		for pkg, js := range jobsByPkg {
-			nres, outText, err := runNative(pkg, js, byPkg[pkg], filepath.Join(work, "native-"+strings.ReplaceAll(pkg, "/", "_")))
-			if err != nil {
-				broken = append(broken, "native run: "+err.Error())
-				continue
+			// schedule-dependent counterexamples get several native attempts
+			attempts := 1
+			for _, mt := range jobMeta[pkg] {
+				if o, ok := mt.(*Outcome); ok && o.Nondet {
+					attempts = 4
+				}
 			}
-			_ = outText
-			for i, nr := range nres {
-				switch m := jobMeta[pkg][i].(type) {
-				case *Outcome:
-					if nr.Failed != "" && !nr.AssumeFailed {
-						confirmed[m] = nr.Failed
-					} else {
-						spurious++
+			for att := 0; att < attempts; att++ {
+				var sel []nativeJob
+				var selMeta []interface{}
+				for i, j := range js {
+					mt := jobMeta[pkg][i]
+					if att > 0 {
+						o, ok := mt.(*Outcome)
+						if !ok || !o.Nondet {
+							continue
+						}
+						if _, done := confirmed[o]; done {
+							continue
+						}
 					}
-				case *Witness:
-					validated++
-					if nr.Failed != "" || nr.AssumeFailed || strings.Join(nr.Observed, ";") != strings.Join(m.Observed, ";") {
-						mismatches++
-						broken = append(broken, fmt.Sprintf("translator validation mismatch in %s: engine %v native %v (failed=%q) model=%s", nr.Harness, m.Observed, nr.Observed, nr.Failed, shortModel(m.Model)))
+					sel = append(sel, j)
+					selMeta = append(selMeta, mt)
+				}
+				if len(sel) == 0 {
+					break
+				}
+				nres, _, err := runNative(pkg, sel, byPkg[pkg], filepath.Join(work, "native-"+strings.ReplaceAll(pkg, "/", "_")))
+				if err != nil {
+					broken = append(broken, "native run: "+err.Error())
+					break
+				}
+				for i, nr := range nres {
+					switch m := selMeta[i].(type) {
+					case *Outcome:
+						if nr.Failed != "" && !nr.AssumeFailed {
+							confirmed[m] = nr.Failed
+						}
+					case *Witness:
+						validated++
+						if nr.Failed != "" || nr.AssumeFailed || strings.Join(nr.Observed, ";") != strings.Join(m.Observed, ";") {
+							mismatches++
+							broken = append(broken, fmt.Sprintf("translator validation mismatch in %s: engine %v native %v (failed=%q) model=%s", nr.Harness, m.Observed, nr.Observed, nr.Failed, shortModel(m.Model)))
+						}
 					}
 				}
+			}
+		}
+		for _, c := range cands {
+			if _, ok := confirmed[c.o]; !ok && c.o.Model != nil {
+				spurious++
 			}
 		}
 	}
@@ -554,6 +590,11 @@ func checkMain(args []string) int {
 	for _, c := range cands {
 		o := c.o
 		nf, ok := confirmed[o]
+		if k, isKnown := knownByID[o.Known]; !ok && isKnown && k.Status == "open" && k.Property == prop {
+			// inside the region of a recorded finding; this instance did not replay natively
+			// (schedule dependent) - neither a new violation nor a pass of that region
+			continue
+		}
 		if !ok && !*noNative {
 			if o.Model == nil {
 				broken = append(broken, fmt.Sprintf("%s: %s %s without model", o.Harness, o.Kind, o.ID))
